@@ -22,16 +22,13 @@ theorem openSt_low (st : St) (j : Nat) (hj : j ≠ st.sub) : (openSt st).obj j =
 theorem openSt_top (st : St) : (openSt st).obj st.sub = { st.obj st.sub with iscur := true } := by
   simp [openSt, St.setSlot]
 
-theorem openSt_plain {st : St} (hp : Plain st) : Plain (openSt st) := by
-  refine ⟨hp.inc, ?_⟩
-  show st.top = _
-  rw [hp.top]
-  by_cases h : 0 = st.sub
-  · have h' : st.sub = 0 := h.symm
-    have := openSt_top st
-    rw [h'] at this
-    rw [this]
-  · rw [openSt_low st 0 h]
+theorem openSt_flat {st : St} (hp : Flat st st.sub) : Flat (openSt st) (openSt st).sub := by
+  show Flat (openSt st) st.sub
+  refine ⟨hp.tinc, ?_⟩
+  have := hp.tsize
+  unfold St.tsize at this ⊢
+  rw [openSt_top]
+  exact this
 
 theorem openSt_curOK (st : St) : CurOK (openSt st) := by
   unfold CurOK
@@ -53,27 +50,28 @@ theorem openSt_sp {st : St} {pl : Place} (h : SP st st.sub pl) : SP (openSt st) 
 
 /-- the closing brace after the items of the list opened at `st` -/
 theorem close_tail {st st4 : St} (hlt : ∀ c, st.cur = some c → c < st.sub) (hco : CurOK st)
-    (hf : Frame st.sub (openSt st) st4) (hp4 : Plain st4)
+    (hf : Frame st.sub (openSt st) st4) (hp : Flat st st.sub)
     (hty : (st4.obj st.sub).ty = ((openSt st).obj st.sub).ty)
     (hoff : (st4.obj st.sub).offset = ((openSt st).obj st.sub).offset) :
     (closeBrace st4).log = st4.log ∧ Frame st.sub st (closeBrace st4) ∧ (closeBrace st4).sub = st.sub ∧
-      Plain (closeBrace st4) ∧ ((closeBrace st4).obj st.sub).ty = (st.obj st.sub).ty ∧
+      ((closeBrace st4).obj st.sub).ty = (st.obj st.sub).ty ∧
       ((closeBrace st4).obj st.sub).offset = (st.obj st.sub).offset := by
   have hc4 : st4.cur = some st.sub := hf.cur
-  rw [closeBrace_eq hc4 hp4]
+  have hp4 : Flat st4 st.sub := (openSt_flat hp).frame hf hty
+  rw [closeBrace_eq hc4 hp4.tinc]
   have hprev : prevCur st4 st.sub = st.cur := by
     rw [← prevCur_curOK hco hlt]
     apply prevCur_congr
     intro j hj
     rw [hf.low j hj, openSt_low st j (by omega)]
   rw [openSt_top] at hty hoff
-  refine ⟨rfl, ⟨hprev, hf.top, hf.inc, ?_⟩, rfl, ⟨hp4.inc, hp4.top⟩, hty, hoff⟩
+  refine ⟨rfl, ⟨hprev, hf.top, hf.inc, ?_⟩, rfl, hty, hoff⟩
   intro j hj
   show st4.obj j = st.obj j
   rw [hf.low j hj, openSt_low st j (by omega)]
 
 theorem pBraced_step (f : Nat) (ih : ∀ f', f' < f → PAll f') : PBraced f := by
-  intro pl its rst rst' hr hn hw hoi hne st st5 hlt hp hco hic hsp hle hb
+  intro pl its rst rst' hr hn hw hne st st5 hlt hp hco hic hsp hle hb
   cases f with
   | zero => rw [braced.eq_1] at hr; cases hr
   | succ f =>
@@ -83,7 +81,7 @@ theorem pBraced_step (f : Nat) (ih : ∀ f', f' < f → PAll f') : PBraced f := 
   | ok st4 =>
   rw [hpi] at hb
   cases hb
-  have hp3 := openSt_plain hp
+  have hp3 := openSt_flat hp
   have hco3 := openSt_curOK st
   have hsp3 := openSt_sp hsp
   have hcur3 : (openSt st).cur = some st.sub := rfl
@@ -94,7 +92,7 @@ theorem pBraced_step (f : Nat) (ih : ∀ f', f' < f → PAll f') : PBraced f := 
       hit (openSt st) e = .ok (.add v, openSt st) → ((openSt st).obj (openSt st).sub).ty.size = sz →
       LogEq (openSt st) rs → (∀ stp, preStep (openSt st) [] = .ok stp → stp = openSt st) →
       LogEq (closeBrace st4) (wr rs ⟨pl.off, pl.off + sz, pl.before, pl.after, v⟩) ∧ Frame st.sub st (closeBrace st4) ∧
-        (closeBrace st4).sub = st.sub ∧ Plain (closeBrace st4) ∧
+        (closeBrace st4).sub = st.sub ∧
         ((closeBrace st4).obj st.sub).ty = (st.obj st.sub).ty ∧
         ((closeBrace st4).obj st.sub).offset = (st.obj st.sub).offset := by
     intro e v rs sz hits hh hsz hl3 hpre
@@ -106,8 +104,8 @@ theorem pBraced_step (f : Nat) (ih : ∀ f', f' < f → PAll f') : PBraced f := 
     subst this
     have hbody' : exprBody 34 (openSt st) e = .ok st4 := hbody
     obtain ⟨haf, hle4⟩ := leaf_add (rest := .nil) hh hsp3 hp3 hco3 hsz hl3 hbody'
-    obtain ⟨c1, c2, c3, c4, c5, c6⟩ := close_tail hlt hco haf.frame haf.plain haf.ty haf.off
-    exact ⟨by unfold LogEq; rw [c1]; exact hle4, c2, c3, c4, c5, c6⟩
+    obtain ⟨c1, c2, c3, c5, c6⟩ := close_tail hlt hco haf.frame hp haf.ty haf.off
+    exact ⟨by unfold LogEq; rw [c1]; exact hle4, c2, c3, c5, c6⟩
   rcases scalar_or_not pl.ty with ⟨size, k, hty⟩ | hns
   · -- `{ e }` for a scalar
     have hty3 : ((openSt st).obj (openSt st).sub).ty = .scalar size k := hsp3.ty.trans hty
@@ -149,7 +147,7 @@ theorem pBraced_step (f : Nat) (ih : ∀ f', f' < f → PAll f') : PBraced f := 
         simp only [hw.unb, Bool.false_eq_true, if_false] at hi
         cases hi
         have hh : hit (openSt st) (.str w scls cs) = .ok (.add (.str w cs), openSt st) := by
-          rw [hit_str hty3 (hp3.tinc _), if_neg hbad]
+          rw [hit_str hty3 hp3.tinc, if_neg hbad]
         have hbits := hw.bits hnsc
         have := fin (.str w scls cs) (.str w cs) (zeroed rst pl) (n * es) rfl hh
           (by rw [hty3]; first | rfl | skip) hl3
@@ -158,15 +156,15 @@ theorem pBraced_step (f : Nat) (ih : ∀ f', f' < f → PAll f') : PBraced f := 
         exact this
     · -- the members / elements in order
       rw [braced_loop hns hs] at hr
-      obtain ⟨r1, r2, r3, r4, r5⟩ := (ih f (Nat.lt_succ_self _)).2.2.2 pl 0 its (zeroed rst pl) rst' hr
-        (by rw [hn, zeroed_nswitch]) hw hoi (openSt st) st4 st.sub hcur3 hp3 hco3 hsp3.ty hsp3.off
+      obtain ⟨r1, r2, r4, r5⟩ := (ih f (Nat.lt_succ_self _)).2.2.2.1 pl 0 its (zeroed rst pl) rst' hr
+        (by rw [hn, zeroed_nswitch]) hw (openSt st) st4 st.sub hcur3 hp3 hco3 hsp3.ty hsp3.off
         (fun _ => ⟨rfl, by rw [zeroed_log, hw.unb]; exact zeroReg_zlog _ _ _⟩) (fun p hp => by omega) hl3 hpi
-      obtain ⟨c1, c2, c3, c4, c5, c6⟩ := close_tail hlt hco r2 r3 r4 r5
-      exact ⟨by unfold LogEq; rw [c1]; exact r1, c2, c3, c4, c5, c6⟩
+      obtain ⟨c1, c2, c3, c5, c6⟩ := close_tail hlt hco r2 hp r4 r5
+      exact ⟨by unfold LogEq; rw [c1]; exact r1, c2, c3, c5, c6⟩
 
 /-- the four simulation statements, for every amount of fuel -/
 theorem pAll (f : Nat) : PAll f := by
   induction f using Nat.strongRecOn with
-  | _ f ih => exact ⟨pInit_step f ih, pCont_step f ih, pBraced_step f ih, pLoop_step f ih⟩
+  | _ f ih => exact ⟨pInit_step f ih, pCont_step f ih, pBraced_step f ih, pLoop_step f ih, pDesig_step f ih⟩
 
 end CprocVerif.InitSim
